@@ -9,6 +9,10 @@ Decided structural clauses:
     construction-time attributes; what is stored is what was computed for that key
  D4 tree completion only adds the missing side, at the mirror image of the existing child, iterating over the node list
     taken before any insertion
+ D5 memo invalidation: weights that are computed lazily (`if self.weights is None: ...`) are reset by every method that
+    replaces the grid they were computed for
+ D6 object freshness: the base weight of a leaf of the balanced tree is computed from that leaf; slice containers created while
+    splitting are fresh instances (no shallow copy of a container shares its mutable lists / dictionaries with another one)
 Not decided: exactness to any order, equality of grouping variants (numerical)."""
 import ast
 
@@ -205,6 +209,10 @@ def run(prog, ctx):
               "no parameter outside the key influences the cached weights",
               "parameters %s influence the cached weights but are not part of the cache key" % infl)
 
+    # ------------------------------------------------------------------ D5 / D6
+    check_memo_invalidation(prog, ctx)
+    check_freshness(prog, ctx)
+
     # ------------------------------------------------------------------ D4
     ft = None
     for q, fi in prog.functions.items():
@@ -256,3 +264,84 @@ def run(prog, ctx):
     ctx.check(okl, "C11.D4", R.key_of(ft, "iterates-snapshot"), ft.loc(),
               "the loop runs over the node list taken before any insertion",
               "force_full_tree_invariant iterates a node sequence that is not a snapshot taken before the loop: inserted children are visited too")
+
+
+def check_memo_invalidation(prog, ctx):
+    eg = prog.cls(EX + "ExtrapolationGrid")
+    # lazily computed attributes: tested `is None` and recomputed under that test
+    memos = set()
+    for fi in eg.methods.values():
+        tm = Terms(fi.node, max_depth=0)
+        c = cfg_of(fi)
+        for n in c.nodes:
+            if n.kind == "test":
+                t = tm.term(n.ast)
+                if t[0] == "cmp" and t[1] == "Is" and t[3] == ("c", "None") and t[2][0] == "a" and t[2][1] == ("n", fi.self_name):
+                    attr = t[2][2]
+                    # something under the True edge stores it (directly or through a method of the class that stores it)
+                    for m in c.nodes:
+                        if m.kind == "stmt" and m.ast is not None and c.edge_dominates(n, True, m):
+                            stores = [s for s in R.attribute_stores(m.ast) if s.attr == attr] if isinstance(m.ast, ast.stmt) else []
+                            calls = [x for x in ast.walk(m.ast) if isinstance(x, ast.Call) and isinstance(x.func, ast.Attribute)
+                                     and isinstance(x.func.value, ast.Name) and x.func.value.id == fi.self_name]
+                            if stores or any(any(s2.attr == attr for s2 in R.self_stores(eg.methods[x.func.attr])) for x in calls if x.func.attr in eg.methods):
+                                memos.add(attr)
+    ctx.floor("C11.D5", len(memos), 1, "lazily computed attributes of ExtrapolationGrid")
+    for attr in sorted(memos):
+        for name, fi in sorted(eg.methods.items()):
+            if name == "__init__":
+                continue
+            grid_stores = [s for s in R.self_stores(fi, "grid") if s.kind == "plain"]
+            if not grid_stores:
+                continue
+            ctx.touch(fi)
+            c = cfg_of(fi)
+            resets = [c.node_of(s.stmt) for s in R.self_stores(fi, attr) if s.kind == "plain" and isinstance(s.value, ast.Constant) and s.value.value is None]
+            recomputes = [R.cfg_node(fi, x) for x in R.calls_in(fi.node) if isinstance(x.func, ast.Attribute) and x.func.attr in eg.methods
+                          and isinstance(x.func.value, ast.Name) and x.func.value.id == fi.self_name
+                          and any(s2.attr == attr for s2 in R.self_stores(eg.methods[x.func.attr]))]
+            ok = any(c.post_dominates(n, c.entry) for n in resets + recomputes)
+            ctx.check(ok, "C11.D5", R.key_of(fi, "invalidates:%s" % attr), fi.loc(grid_stores[0].stmt),
+                      "replacing the grid resets the lazily computed self.%s on every path" % attr,
+                      "%s replaces self.grid but does not reset the lazily computed self.%s: weights computed for the previous grid are "
+                      "reused for the new one" % (fi.qual, attr))
+
+
+def check_freshness(prog, ctx):
+    bw = prog.func(EX + "BalancedExtrapolationGrid.get_weights")
+    ctx.touch(bw)
+    tm = Terms(bw.node, max_depth=0)
+    n = 0
+    for st in walk_local(bw.node):
+        if isinstance(st, ast.Assign) and isinstance(st.targets[0], ast.Subscript) and isinstance(st.targets[0].value, ast.Name) \
+                and st.targets[0].value.id == "weight_dict":
+            loops = [l for l in R.enclosing_loops(st) if isinstance(l, ast.For) and isinstance(l.target, ast.Name)]
+            if not loops:
+                continue
+            n += 1
+            leaf = loops[-1].target.id
+            k = tm.term(st.targets[0].slice)
+            v = R.resolve_locals(bw, tm.term(st.value), cfg_of(bw).node_of(st), tm)
+            ok = any(x == ("n", leaf) for x in subterms(k)) and any(x == ("n", leaf) for x in subterms(v))
+            ctx.check(ok, "C11.D6", R.key_of(bw, "leaf-own-step-width"), bw.loc(st),
+                      "the base weight stored for a leaf is computed from that leaf",
+                      "`%s`: the base weight of a leaf does not depend on the leaf itself (on an unbalanced / partially refined tree leaves of "
+                      "one extrapolation level have different step widths)" % src(st))
+    ctx.floor("C11.D6", n, 1, "base-weight stores of the balanced grid")
+    # shallow copies of objects that own mutable containers
+    hits = []
+    for q, fi in prog.functions.items():
+        if fi.module.name != "Extrapolation" or fi.cls is None:
+            continue
+        for x in R.calls_in(fi.node):
+            f = x.func
+            is_copy = (isinstance(f, ast.Attribute) and f.attr == "copy" and isinstance(f.value, ast.Name) and f.value.id == "copy") or \
+                      (isinstance(f, ast.Name) and f.id == "copy")
+            if is_copy and x.args and isinstance(x.args[0], ast.Name) and x.args[0].id == fi.self_name:
+                hits.append((fi, x))
+    for (fi, x) in hits:
+        ctx.violation("C11.D6", R.key_of(fi, "shallow-copy-of-self"), fi.loc(x),
+                      "`%s` creates a new object that shares every list / dictionary attribute with this one (shallow copy): weights and "
+                      "slices recorded in one container show up in the other" % src(x))
+    if not hits:
+        ctx.ok("C11.D6", "Extrapolation::no-shallow-self-copies", "sparseSpACE/Extrapolation.py", "no object is created as a shallow copy of another one")
